@@ -20,7 +20,12 @@ pub struct Case {
     /// usize::MAX = at the very end, without a final newline
     pub position: usize,
     pub fault: usize,
+    /// what ends the faulty line before its line break: nothing, a carriage return (CR LF file), a tab
+    #[serde(default)]
+    pub tail: usize,
 }
+
+pub const TAILS: &[&str] = &["", "\r", "\t", "\t\r"];
 
 /// (name, text, only valid at block depth 0?)
 pub const FAULTS: &[(&str, &str, bool)] = &[
@@ -45,6 +50,10 @@ pub const FAULTS: &[(&str, &str, bool)] = &[
     ("two_statements_after_break", "break listen", false),
     ("invalid_identifier_digit", "ab1 is 5", false),
     ("invalid_identifier_underscore", "_x is 5", false),
+    ("invalid_identifier_accented_digit", "mētäl2 is 5", false),
+    ("invalid_identifier_accented_underscore", "Ÿës_x is 5", false),
+    ("invalid_identifier_accented_superscript", "tommé² says hello", false),
+    ("invalid_identifier_in_expression", "say ünï9 plus 1", false),
     ("unterminated_string", "\"abc", false),
     ("stray_else", "else", true),
     ("prefix_without_word", "my", false),
@@ -84,6 +93,7 @@ pub fn inject(c: &Case) -> Option<(String, u32, u32, bool)> {
         }
         let line = 1 + src.matches('\n').count() as u32;
         src.push_str(text);
+        src.push_str(TAILS[c.tail % TAILS.len()]);
         return Some((src, line, 0, true));
     }
     let k = c.position % n;
@@ -94,6 +104,7 @@ pub fn inject(c: &Case) -> Option<(String, u32, u32, bool)> {
     let mut src = String::with_capacity(r.text.len() + text.len() + 1);
     src.push_str(&r.text[..off]);
     src.push_str(text);
+    src.push_str(TAILS[c.tail % TAILS.len()]);
     src.push('\n');
     src.push_str(&r.text[off..]);
     let line = 1 + r.text[..off].matches('\n').count() as u32;
@@ -109,7 +120,7 @@ impl Prop for C13 {
         format!(
             "triples (valid program, position, fault): programs from the grammar-directed generator (nested blocks, functions, multi-line strings and comments, blank-line separated top-level blocks), rendered with random \
              aliases/case/layout/comments; the position is the first token of any statement at any depth (or the very end of the text without final newline); the fault is one of {} context-independent faulty lines \
-             (missing operand, missing keyword, two statements on one line, invalid identifier, unterminated string, stray else at top level, article without word, ...) inserted as a line of its own where that statement starts. \
+             (missing operand, missing keyword, two statements on one line, invalid identifier, unterminated string, stray else at top level, article without word, ...) inserted as a line of its own where that statement starts, ended by LF, CR LF, tab + LF or tab + CR LF. \
              Expected: parse error on exactly that line. non-trivial = fault on line >= 2 with a block, blank line or multi-line token before it; distinct by triple",
             FAULTS.len()
         )
@@ -130,8 +141,9 @@ impl Prop for C13 {
         let spelling = super::c02::take_spelling(t, 40);
         let fault = t.pick(FAULTS.len());
         let position = if t.chance(1, 12) { usize::MAX } else { t.pick(64) };
+        let tail = t.weighted(&[55, 25, 12, 8]);
         let prog = SynGen::new(t, SynCfg::default()).program();
-        Case { prog, spelling, position, fault }
+        Case { prog, spelling, position, fault, tail }
     }
     fn fixed_cases(&self, _t: Tier) -> (Vec<Case>, bool) {
         // every fault alone, at the start of an otherwise trivial program and at its end
@@ -139,7 +151,9 @@ impl Prop for C13 {
         let mut v = vec![];
         for f in 0..FAULTS.len() {
             for position in [0usize, 1, 2, 3, 4, usize::MAX] {
-                v.push(Case { prog: prog.clone(), spelling: vec![], position, fault: f });
+                for tail in 0..TAILS.len() {
+                    v.push(Case { prog: prog.clone(), spelling: vec![], position, fault: f, tail });
+                }
             }
         }
         (v, false)
@@ -178,6 +192,9 @@ impl Prop for C13 {
                 }
                 if at_eof {
                     o.labels.push("at_eof".into());
+                }
+                if c.tail % TAILS.len() != 0 {
+                    o.labels.push(format!("tail:{:?}", TAILS[c.tail % TAILS.len()]));
                 }
                 if !e.loc_is_token {
                     o.labels.push("line_location".into());
